@@ -84,6 +84,7 @@ type c12Case struct {
 	Short    int    `json:"short"`    // Prometheus-side writer accepts at most this many bytes per Write (direct mode)
 	Chunking string `json:"chunking"` // all-splits | random | default
 	CT       string `json:"contentType"`
+	Members  int    `json:"gzipMembers,omitempty"` // > 1: the gzip body consists of several concatenated members
 }
 
 func c12Cases(tier string) []c12Case {
@@ -115,6 +116,18 @@ func c12Cases(tier string) []c12Case {
 						}
 					}
 				}
+			}
+		}
+	}
+	// gzip bodies made of several concatenated members (legal; what an exporter behind a flushing gzip writer
+	// or a concatenating proxy sends): every shape, both modes
+	for si, sh := range c12Shapes {
+		for _, mode := range []string{"direct", "tcp"} {
+			for _, mem := range []int{2, 3} {
+				if sh.Name == "8MiB" && (tier != "thorough" || mem == 3) {
+					continue
+				}
+				cs = append(cs, c12Case{Shape: si, Name: sh.Name, Gzip: true, Mode: mode, Assigned: mem == 2, Chunking: "random", CT: cts[0], Members: mem})
 			}
 		}
 	}
@@ -301,7 +314,7 @@ func runC12(w *core.WorkerCtx, idx int) *core.CaseResult {
 	}
 	c := cs[idx]
 	r := core.NewRng(w.Seed, 0xC12, uint64(idx))
-	res := &core.CaseResult{Sig: fmt.Sprintf("%s|gz%v|%s|asg%v|short%d|%s", c.Name, c.Gzip, c.Mode, c.Assigned, c.Short, c.Chunking), Nontrivial: true}
+	res := &core.CaseResult{Sig: fmt.Sprintf("%s|gz%v/%d|%s|asg%v|short%d|%s", c.Name, c.Gzip, c.Members, c.Mode, c.Assigned, c.Short, c.Chunking), Nontrivial: true}
 	dir := filepath.Join(w.Scratch, fmt.Sprintf("c12-%d", idx))
 	rg, err := newRig(dir, rigLongTimeout, "")
 	if err != nil {
@@ -321,7 +334,7 @@ func runC12(w *core.WorkerCtx, idx int) *core.CaseResult {
 	}
 	body := c12Shapes[c.Shape].Make(r)
 	host := fmt.Sprintf("t%d.example:9100", h)
-	base := &bodyScript{Body: body, Gzip: c.Gzip, ContentType: c.CT}
+	base := &bodyScript{Body: body, Gzip: c.Gzip, ContentType: c.CT, Members: c.Members}
 	if c.CT == "" {
 		base.ContentType = "text/plain"
 	}
